@@ -110,7 +110,7 @@ def check(R, F):
     pe = F.fn('name::parse_escape')
     oks = [(b, st) for b, bl in enumerate(pe.blocks) if not bl['cleanup'] for st in bl['stmts'] if st['k'] == 'assign' and st['rv']['k'] == 'agg' and st['rv']['ak'] == 'tuple' and len(st['rv']['ops']) == 2]
     lens = sorted(const_int(st['rv']['ops'][1]) for b, st in oks)
-    gd = [paths.dom_guards(pe, b) for b, st in oks if const_int(st['rv']['ops'][1]) == 3]
+    gd = [paths.dom_guards(pe, b, variants=False) for b, st in oks if const_int(st['rv']['ops'][1]) == 3]
     ok = lens == [1, 3] and gd and has(gd[0], r'^Gt\(.*,255_usize\) in \[0\]$') and has(gd[0], r'^Lt\(slice::len\(arg1\),3_usize\) in \[0\]$') and sum(1 for x in gd[0] if 'is_ascii_digit' in x and x.endswith('not in [0]')) >= 3
     R.require(ok, 'escaping', pe.gpath, pe.where(), '\\DDD needs three digits and value <= 255; otherwise one octet', 'parse_escape accepts lengths %s under %s' % (lens, gd[0] if gd else None))
     fs = F.fn('name::<impl std::str::FromStr for std::boxed::Box<name::Name>>::from_str')
